@@ -261,9 +261,13 @@ func (f *SnapFileWrap) Write(p []byte) (int, error) {
 	// Signature of known finding F3: a chunk that belongs to another snapshot than
 	// the one this file is labelled with.
 	if ctx := f.rec.ctxByTask[f.rec.c.Sim.Cur()]; ctx != nil && ctx.Msg.Kind == KindIS && f.writing {
-		if ctx.Msg.IS.LastIncludedIndex != f.inner.Metadata().LastIncludedIndex {
+		// (Only OLDER into NEWER is the known finding: a request with a greater last index
+		// resets the file on the unchanged tree, so the opposite direction is something else.)
+		if ctx.Msg.IS.LastIncludedIndex < f.inner.Metadata().LastIncludedIndex {
 			f.rec.setTaint(f.inc.Node, "F3")
-			f.rec.probe("chunk-of-other-snapshot-written")
+			f.rec.probe("chunk-of-older-snapshot-written-into-newer-file")
+		} else if ctx.Msg.IS.LastIncludedIndex > f.inner.Metadata().LastIncludedIndex {
+			f.rec.probe("chunk-of-newer-snapshot-written-into-older-file")
 		}
 	}
 	if err != nil {
